@@ -283,7 +283,7 @@ def run_property(prop, tier="quick", seed=0, only=None, verbose=False):
     return rc
 
 
-LEVELS = {"C04": "proof", "C13": "proof", "C14": "proof", "C16": "proof"}
+LEVELS = {"C04": "proof", "C14": "proof", "C16": "proof"}
 TRUSTED_COMMON = [
     "pyvc symbolic executor: encoding of CPython semantics for the subset in DESIGN.md 2.3 (integers mathematical, strings = z3 sequences of code points)",
     "z3 5.1.0 soundness (cvc5 1.0.3 / z3 4.8.12 only as fall-back on unknown)",
